@@ -440,11 +440,49 @@ package xmpp
 //@     preserves s.state, s.negotiated, s.features
 //@   callsite mellium.im/xmpp/internal/stream.Expect#*
 //@     preserves s.state, s.negotiated, s.features
-//@   callsite mellium.im/xmpp/internal/stream.Send#*
+//@   callsite mellium.im/xmpp/internal/stream.Send#1
+//@     assert[C12] ((s.state & S2S == 0 && oEmpty) || oSame) && (lEmpty || lSame)
+//@     preserves s.state, s.negotiated, s.features
+//@     after: sent = true
+//@   callsite mellium.im/xmpp/internal/stream.Send#2
 //@     preserves s.state, s.negotiated, s.features
 //@     after: sent = true
 //@   callsite newTeeConn#1
 //@     preserves s.state, s.negotiated, s.features
+//@   ghost sLoc jid.JID
+//@   ghost sOrig jid.JID
+//@   ghost cLoc jid.JID
+//@   ghost cOrig jid.JID
+//@   ghost oEmpty bool = false
+//@   ghost oSame bool = false
+//@   ghost lEmpty bool = false
+//@   ghost lSame bool = false
+//@   callsite (*Session).LocalAddr#1
+//@     after: sLoc = ret0
+//@   callsite (*Session).RemoteAddr#1
+//@     after: sOrig = ret0
+//@   callsite (*Session).LocalAddr#2
+//@     after: cOrig = ret0
+//@   callsite (*Session).RemoteAddr#2
+//@     after: cLoc = ret0
+//@   callsite (mellium.im/xmpp/jid.JID).Equal#1
+//@     assert[C12] arg0 == sOrig && len(arg1.data) == 0
+//@     after: oEmpty = ret0
+//@   callsite (mellium.im/xmpp/jid.JID).Equal#2
+//@     assert[C12] arg0 == sOrig && arg1 == s.in.Info.From
+//@     after: oSame = ret0
+//@   callsite (mellium.im/xmpp/jid.JID).Equal#3
+//@     assert[C12] arg0 == sLoc && len(arg1.data) == 0
+//@     after: lEmpty = ret0
+//@   callsite (mellium.im/xmpp/jid.JID).Equal#4
+//@     assert[C12] arg0 == sLoc && arg1 == s.in.Info.To
+//@     after: lSame = ret0
+//@   callsite (mellium.im/xmpp/jid.JID).Equal#5
+//@     assert[C12] arg0 == cLoc && arg1 == s.in.Info.From
+//@   callsite (mellium.im/xmpp/jid.JID).Equal#6
+//@     assert[C12] arg0 == s.in.Info.To && len(arg1.data) == 0
+//@   callsite (mellium.im/xmpp/jid.JID).Equal#7
+//@     assert[C12] arg0 == cOrig && arg1 == s.in.Info.To
 //@   callsite <dynamic>#1
 //@     preserves s.state, s.negotiated, s.features
 //@     assume[C01,C02,C04] forall i int :: 0 <= i && i < len(ret0.Features) ==> ret0.Features[i].Name.Local != ""
